@@ -207,7 +207,8 @@ func runC08(c *Ctx) {
 			}
 			got, ok := refgraph.Eval(res.Out, occ.Path)
 			ref, isRef := refgraph.RefOf(got)
-			if !ok || !isRef || ref != occ.Ref {
+			// "in place" is up to the printing every decoded reference goes through (C13): `a.json#` prints as `a.json`
+			if !ok || !isRef || (ref != occ.Ref && ref != printedRef(occ.Ref)) {
 				c.Fail(Failure{Kind: "oracle", Sig: "C08:unresolvable-ref-not-verbatim", What: fmt.Sprintf("unresolvable schema $ref %q at /%s was not left verbatim (now %s)", occ.Ref, strings.Join(occ.Path, "/"), clip(got.Text())), Case: cs})
 			}
 		}
@@ -236,6 +237,15 @@ func runC08(c *Ctx) {
 		}
 	}
 	c08ContainerProbes(c)
+}
+
+// printedRef: the text a reference has after a plain decode+encode of the document that holds it.
+func printedRef(text string) string {
+	r, err := spec.NewRef(text)
+	if err != nil {
+		return text
+	}
+	return r.String()
 }
 
 // c08ContainerProbes: references whose pointer runs THROUGH the typed containers of the root (an operation's
